@@ -528,6 +528,17 @@ func run(c *vf.Ctx) {
 		r.sweepGeneric(2, bounds{piAlph: binary, trAlph: half, emAlph: []float64{1, 0.5, 0}, nmax: 3, postN: 2}, "real64", 1)
 	}
 
+	// ---- longer sequences for Posterior(state-set sequence) (fifth seeding round, seed C15-10):
+	// the restricted forward recursion alternates two buffers, so what step k leaves behind is
+	// read again at step k+2 and, through it, at k+3; up to length 3 no such read exists. All
+	// sequences of non-empty state subsets at lengths 4 and 5 (thorough 6; m=3 at length 4)
+	r.sweepGeneric(2, bounds{piAlph: half, trAlph: half, emAlph: []float64{1, 0.5}, nmin: 4, nmax: 5, postN: 5}, "float64", 0)
+	if thorough {
+		r.sweepGeneric(2, bounds{piAlph: half, trAlph: half, emAlph: []float64{1, 0.5, 0}, nmin: 6, nmax: 6, postN: 6}, "float64", 0)
+		r.sweepGeneric(3, bounds{piAlph: binary, trAlph: half, emAlph: []float64{1, 0}, nmin: 4, nmax: 4, postN: 4}, "float64", 0)
+		r.sweepGeneric(2, bounds{piAlph: binary, trAlph: half, emAlph: []float64{1, 0.5}, nmin: 4, nmax: 4, postN: 4}, "real64", 1)
+	}
+
 	// ---- constrained and hierarchical HMMs (structured transition matrices), generic route
 	onlyC, onlyH := []string{kindConstrained}, []string{kindHierarchical}
 	lowQuarter := []float64{0, 0.25, 0.5} // m=3: rows (1/2,1/2,0) and (1/2,1/4,1/4) in every order
